@@ -94,7 +94,7 @@ var errWriteFailed = errors.New("write: broken pipe (simulated)")
 
 func (c16) Run(e *Env) {
 	e.ProbeDecl("kind-http", "kind-conn", "kind-cloudwatch", "kind-none", "http-retry", "lost-op-attributed-to-request", "http-client-timeout", "http-429-retry-after", "dial-refused", "write-error", "short-write",
-		"streams-queued-on-sender", "cancel-mid-flush", "cloudwatch-error", "several-batches-per-flush", "empty-flush", "second-stream-while-reconnecting", "siege", "retries-disabled", "connection-rotation-after-100-streams")
+		"streams-queued-on-sender", "cancel-mid-flush", "cloudwatch-error", "several-batches-per-flush", "empty-flush", "second-stream-while-reconnecting", "siege", "retries-disabled", "connection-rotation-after-100-streams", "two-backends")
 	kind := BackendKinds[e.Draw(len(BackendKinds))]
 	spec := BackendSpec{Kind: kind, BatchSize: []int{0, 1, 2, 3, 21}[e.Draw(5)], Compress: e.Bool(), MaxRequests: e.Range(1, 4), FlushInterval: time.Second}
 	spec.RetryWindow = []time.Duration{0, 2 * time.Second, 5 * time.Second, -1}[e.Draw(4)]
@@ -142,6 +142,11 @@ func (c16) Run(e *Env) {
 		ExpCounter: time.Hour, ExpGauge: time.Hour, ExpSet: time.Hour, ExpTimer: time.Hour, Percent: []float64{90},
 		HistLimit: []uint32{0, 2, 10}[e.Draw(3)],
 		Backends:  []gostatsd.Backend{wb}}
+	if e.Chance(1, 3) {
+		// a second backend after the one under test: the flusher hands every flush to both
+		cfg.Backends = append(cfg.Backends, &RecBackend{BName: "second"})
+		e.Probe("two-backends")
+	}
 	if bb.Run != nil {
 		cfg.Runnables = []gostatsd.Runnable{bb.Run}
 	}
@@ -690,6 +695,18 @@ func (c16) Run(e *Env) {
 		for k, r := range httpLast {
 			if st, decided := reqStep[r.N]; !httpOK[k] && decided {
 				lost = append(lost, lostOp{r.At, st, "body " + k + " never accepted"})
+			}
+		}
+		// ... and bodies whose last attempt was never answered (the client gave up waiting): nobody
+		// decided that at a step, so it is attributed by its instant - flush requests of one shard do
+		// not overlap in time
+		for k, r := range httpLast {
+			if !httpOK[k] && r.Outcome == "client-aborted" {
+				for _, c := range calls {
+					if c.cbs == 1 && c.startAt.Before(r.EndAt) && !r.EndAt.After(c.endAt) && len(c.errs) == 0 {
+						e.Failf("C16/lost-data-without-error", "%s: the last attempt for body %s was never answered and timed out at +%v, during flush request %d (+%v .. +%v), whose callback carried no error", kind, k, r.EndAt.Sub(t0), c.n, c.startAt.Sub(t0), c.endAt.Sub(t0))
+					}
+				}
 			}
 		}
 		for _, l := range lost {
